@@ -4,7 +4,7 @@
 //! with abstract terms T = {"k":"iri"|"bn"|"lit","v":[class,..],"q":qualifier}   (spec/Rdf.tla)
 //!   k=iri  v = classes of the IRI's variable part (concrete IRI = "http://e/" + chars), q = ""
 //!   k=bn   v = [], q = blank node label ("b1","b2")
-//!   k=lit  v = classes of the lexical form, q = "" (simple) | "@en" | "^str" (xsd:string) | "^int" (xsd:integer) | "^cus" (http://e/dt)
+//!   k=lit  v = classes of the lexical form, q = "" (simple) | "@en" | "@en-US" | "^str" (xsd:string) | "^int" (xsd:integer) | "^cus" (http://e/dt)
 //!
 //! Concretisation table (class -> character); the inverse maps every other character to class "other":
 //!   pl 'a'   qu '"'   bs '\'   lf U+000A   cr U+000D   ct U+0001   as U+1F600   sp ' '   lt '<'   am '&'
@@ -61,7 +61,14 @@ fn abs_bn(id: &str) -> Value {
 
 fn abs_lit(l: &Literal) -> Value {
     let q = if let Some(lang) = l.language() {
-        if lang == "en" { "@en".to_string() } else { "@other".to_string() }
+        // language tags compare case-insensitively (RDF 1.1 concepts 3.3)
+        if lang.eq_ignore_ascii_case("en") {
+            "@en".to_string()
+        } else if lang.eq_ignore_ascii_case("en-US") {
+            "@en-US".to_string()
+        } else {
+            "@other".to_string()
+        }
     } else {
         match l.datatype().as_str() {
             XSD_STRING => "".to_string(),
@@ -108,6 +115,7 @@ fn build(t: &Value) -> Result<Triple, String> {
             RdfObject::Literal(match gs(o, "q") {
                 "" => Literal::new_simple_literal(v),
                 "@en" => Literal::new_language_tagged_literal(v, "en").map_err(|e| e.to_string())?,
+                "@en-US" => Literal::new_language_tagged_literal(v, "en-US").map_err(|e| e.to_string())?,
                 "^str" => Literal::new_typed_literal(v, NamedNode::new(XSD_STRING).map_err(|e| e.to_string())?),
                 "^int" => Literal::new_typed_literal(v, NamedNode::new(XSD_INTEGER).map_err(|e| e.to_string())?),
                 "^cus" => Literal::new_typed_literal(v, NamedNode::new(CUSTOM_DT).map_err(|e| e.to_string())?),
